@@ -74,20 +74,27 @@ Theorem C05_dc_quadrature_accumulates :
 Proof. reflexivity. Qed.
 Print Assumptions C05_dc_quadrature_accumulates.
 
-(* the weights integrate constants exactly iff they sum to 1.  True for legendre degree 1 and
-   radau degree 2 (exact rational points); the full statement "for every scheme" is REFUTED by
-   radau degree 1, whose single weight is 1/2 (known finding F4) *)
+(* the weights are those of the interpolatory rule on the collocation points; they integrate
+   constants exactly iff they sum to 1.  Computed for exact rational points: legendre degree 1,
+   radau degree 2 and radau degree 1 (whose single weight was 1/2 before the repair of F4).  The
+   statement for arbitrary distinct points (partition of unity of the Lagrange basis) is not proved;
+   for CasADi's points of degree 1..5 the check compares the weights numerically. *)
 Theorem C05_dc_weights_sum_examples :
   map (fun q => this q) (@coeff_B Qc QcOps [Q2Qc (1#2)]) = [1%Q] /\
-  Qeq (this (@osum Qc QcOps (@coeff_B Qc QcOps [Q2Qc (1#3); Q2Qc 1]))) 1.
-Proof. split; vm_compute; reflexivity. Qed.
+  Qeq (this (@osum Qc QcOps (@coeff_B Qc QcOps [Q2Qc (1#3); Q2Qc 1]))) 1 /\
+  map (fun q => this q) (@coeff_B Qc QcOps [Q2Qc 1]) = [1%Q].
+Proof. split; [|split]; vm_compute; reflexivity. Qed.
 Print Assumptions C05_dc_weights_sum_examples.
 
-Theorem C05_dc_constants_refuted :
-  exists tau : list Qc, tau = [Q2Qc 1] (* collocation_points(1, 'radau') *) /\
-    Qeq (this (@osum Qc QcOps (@coeff_B Qc QcOps tau))) (1#2).
-Proof. exists [Q2Qc 1]. split; [reflexivity|]. vm_compute. reflexivity. Qed.
-Print Assumptions C05_dc_constants_refuted.
+(* with two points the rule is exact on the basis {1, s} of the affine integrands:
+   sum w_j = 1 and sum w_j tau_j = 1/2 = int_0^1 s ds *)
+Theorem C05_dc_weights_exact_affine_example :
+  let tau := [Q2Qc (1#3); Q2Qc 1] in
+  let w := @coeff_B Qc QcOps tau in
+  Qeq (this (nth 0 w 0 + nth 1 w 0)%Qc) 1 /\
+  Qeq (this (nth 0 w 0 * nth 0 tau 0 + nth 1 w 0 * nth 1 tau 0)%Qc) (1#2).
+Proof. split; vm_compute; reflexivity. Qed.
+Print Assumptions C05_dc_weights_exact_affine_example.
 
 (* non-vacuity: x' = u, Euler N=2 M=1 on [0,2]; objective at_tf(x) + integral(x) + sum(u) *)
 Local Existing Instance QcOps.
